@@ -36,6 +36,7 @@ LEVEL_TEXT = ('All start-sorted position lists of length <= 2 over a 960-value b
               'objects must decode to the positions the compiler recorded.')
 LEVEL_NOTE = ('Encoder alphabet is a boundary set, lists <= 3 entries (+ length-50 alternations); columns < 2**16.  Tracebacks: '
               'function names are compared by their last dotted component (Cython reports module-qualified names by design); '
+              'a cpdef/@ccall function contributes two entries (C function + Python wrapper, by design) which are collapsed; '
               'bare `raise` re-raise sites, multi-line statements and decorated functions first-line numbers are excluded '
               '(CPython keeps the original line for a bare re-raise, Cython reports the `raise` line - by design of its single '
               'traceback entry per function).  Trusted: CPython 3.12 co_positions() and traceback module.')
@@ -482,6 +483,16 @@ def part2(ctx):
         for d, got, want in zip(descs, cres, rres):
             evals += 1
             got = tuple(got[:2]) + ((list(map(tuple, got[2])),) if got[0] == 'exc' else ())
+            if d['kind'] == 'ccall' and got[0] == 'exc':
+                # by design a cpdef/ccall function is a C function plus a Python wrapper and each adds its own entry
+                # (the wrapper's at the def line): consecutive entries of the same function collapse to the innermost
+                col = []
+                for e in got[2]:
+                    if col and col[-1][:2] == e[:2]:
+                        col[-1] = e
+                    else:
+                        col.append(e)
+                got = got[:2] + (col,)
             want = tuple(want[:2]) + ((list(map(tuple, want[2])),) if want[0] == 'exc' else ())
             outcomes.add((want[1], len(want[2]) if want[0] == 'exc' else 0, want[2][-1][2] - want[2][0][2] if want[0] == 'exc' and want[2] else 0))
             if got != want:
@@ -555,6 +566,14 @@ def replay(ctx, case):
         if ck != 'ok' or rk != 'ok':
             return 'run failed %s/%s %s %s' % (ck, rk, cv if ck != 'ok' else '', rv if rk != 'ok' else '')
         got, want = cv[0][0], rv[0][0]
+        if d['kind'] == 'ccall' and got[0] == 'exc':
+            col = []
+            for e in got[2]:
+                if col and tuple(col[-1][:2]) == tuple(e[:2]):
+                    col[-1] = e
+                else:
+                    col.append(e)
+            got = tuple(got[:2]) + (col,)
         if list(got[:2]) != list(want[:2]) or (got[0] == 'exc' and [tuple(x) for x in got[2]] != [tuple(x) for x in want[2]]):
             return 'compiled %r, CPython %r' % (got, want)
         cf, rf = cv[1].get(descs[0]['name']), rv[1].get(descs[0]['name'])
